@@ -13,6 +13,8 @@
   header values and query tokens, all 2^3 flag combinations, any token predicate `valid`.
 -/
 import MM.Lemmas.C24
+import MM.Gen.C24Tok
+import MM.Gen.LockC24
 
 namespace MM.C24
 
@@ -36,6 +38,27 @@ theorem C24_exempt_set : ∀ p, p ∈ exempt ↔ p ∈ documentedExempt := by
   intro p
   simp only [exempt, Gen.C24.exempt, documentedExempt, List.mem_cons, List.mem_nil_iff, or_false]
   constructor <;> (intro h; rcases h with h | h | h | h | h <;> simp [h])
+
+/-! ### the token predicate is a function of the token (atomic-step / ordering ties)
+
+`C24_401` takes `valid` as a FUNCTION of the presented token.  For the real `validateToken` this
+needs: (a) the cache (`cachedTokenSHA`, `tokenCacheValid`) is written only after
+`bcrypt.CompareHashAndPassword` returned nil for that very token — then "the cache holds t" implies
+"bcrypt accepts t" at every instant of every interleaving, so the fast path never accepts a token
+bcrypt would refuse (SHA-256 collisions aside); (b) the cache fields are written under the write
+lock and read under a lock, so a reader never sees a half-written entry.  Both are facts about the
+source, regenerated on every run (tools/c24_tokencache.go, tools/lockshape.go). -/
+
+/-- (a) one bcrypt call, used as the guard `if bcrypt…(…) != nil { return false }`, and every
+    assignment to a cache field is a statement after that guard. -/
+theorem C24_cache_after_bcrypt :
+    Gen.C24Tok.bcryptCalls = 1 ∧ Gen.C24Tok.guards = 1 ∧ Gen.C24Tok.cacheWritesBeforeGuard = 0 ∧
+    Gen.C24Tok.cacheWrites = Gen.C24Tok.cacheWritesAfterGuard := by decide
+
+/-- (b) every write of a cache field happens under the write lock, every read under a lock. -/
+theorem C24_cache_locked :
+    Gen.LockC24.accesses.all (fun a => if a.2.2.1 then a.2.2.2 == "W" else (a.2.2.2 == "R" || a.2.2.2 == "W")) = true ∧
+    Gen.LockC24.accesses ≠ [] := by decide
 
 /-! ### exempt paths reach only exempt registrations -/
 
